@@ -8,6 +8,7 @@ CONSTANTS
   InitDoc = TRUE
   FeedInit = "running"
   DeliverLast = TRUE
+  EnterGate = FALSE
   PostUnderLock = FALSE
   RegisterAtomic = FALSE
 CHECK_DEADLOCK FALSE
